@@ -191,6 +191,8 @@ def check_stream(case):
     expected = []
     excluded = None
     for m in case["msgs"]:
+        if m["cmd"] in ("hello", "goodbye"):
+            m = dict(m, cmd=m["cmd"] + "_x")     # consumed by the client itself, never handed on
         try:
             line = encode_command_string(m["cmd"], **m["kwargs"])
             exp = decode_command_string(line)
@@ -231,25 +233,48 @@ def check_stream(case):
     if any(e < c < p for s, e, p in spans for c in cutpos):
         classes.append("split-inside-payload")
     vio = []
-    whole, werr = _deliver(stream, [stream], AsyncioBcpClientSocket)
-    part, perr = _deliver(stream, chunks, AsyncioBcpClientSocket)
+    for label, cls in (("", AsyncioBcpClientSocket), (":mpf-client", _mpf_client_factory())):
+        _compare(vio, label, cls, stream, chunks, expected)
+    return Result(vio or None, classes, inside and len(stream) > 0)
+
+
+_RIG = []
+
+
+def _mpf_client_factory():
+    """BCPClientSocket (the class MPF itself uses) needs a machine; one null machine per worker process."""
+    from mpf.core.bcp.bcp_socket_client import BCPClientSocket
+    if not _RIG:
+        from vlib.rig import Rig
+        _RIG.append(Rig("null").start())
+
+    def make(sender, receiver):
+        c = BCPClientSocket(_RIG[0].machine, "verif", None)
+        c._sender = sender          # pylint: disable=protected-access
+        c._receiver = receiver      # pylint: disable=protected-access
+        return c
+    return make
+
+
+def _compare(vio, label, cls, stream, chunks, expected):
+    whole, werr = _deliver(stream, [stream], cls)
+    part, perr = _deliver(stream, chunks, cls)
 
     def norm(lst):
         return [(c, sorted((k, repr(v)) for k, v in kw.items())) for c, kw in lst]
     if werr:
-        vio.append(violation("reader-raises:" + type(werr[0]).__name__, "read_message raised %r on stream %r" % (
+        vio.append(violation("reader-raises:" + type(werr[0]).__name__ + label, "read_message raised %r on stream %r" % (
             werr[0], stream)))
     elif perr:
-        vio.append(violation("reader-raises-when-split:" + type(perr[0]).__name__,
+        vio.append(violation("reader-raises-when-split:" + type(perr[0]).__name__ + label,
                              "read_message raised %r when stream %r was split into %r" % (perr[0], stream, chunks)))
     else:
         if norm(whole) != norm(part):
-            vio.append(violation("split-dependent", "messages depend on chunking: whole=%r split=%r chunks=%r" % (
+            vio.append(violation("split-dependent" + label, "messages depend on chunking: whole=%r split=%r chunks=%r" % (
                 whole, part, chunks)))
         if norm(whole) != norm(expected):
-            vio.append(violation("reassembly-wrong", "stream %r reassembled as %r, expected %r" % (
+            vio.append(violation("reassembly-wrong" + label, "stream %r reassembled as %r, expected %r" % (
                 stream, whole, expected)))
-    return Result(vio or None, classes, inside and len(stream) > 0)
 
 
 SUBCHECKS = [
